@@ -173,8 +173,9 @@ def enabled(sh, cfg):
     if sh["sealed"]:
         return []
     evs = []
+    only = getattr(cfg, "events19", None)
     if not sh["inpoll"]:
-        for wr in WRITERS:
+        for wr in getattr(cfg, "writers19", WRITERS):
             if sh["nrender"][wr] < cfg.maxrender:
                 evs.append(("render", wr))
     for wk in sh["idle"]:
@@ -193,6 +194,8 @@ def enabled(sh, cfg):
             evs.append(("wd", adv))
     for wk in sh["alive"]:
         evs.append(("eof", wk))
+    if only:
+        evs = [e for e in evs if e[0] in only and (e[0] != "pull" or e[2] == ("render",)) and (e[0] not in ("pull", "finishr", "setinfo") or e[1] == WORKERS[0])]
     return evs
 
 
@@ -431,7 +434,12 @@ class C19:
         extra = {"filenames_checked": n, "filenames_distinct_headers": nd, "filename_alphabet": FN_SYMBOLS,
                  "filename_wall_s": round(time.time() - t0, 1)}
         self._fn_bad = bad
-        rc = X.search(self.id, cfg, tier, seed, self.families, time_cap=cap,
+        # a render job that is killed and requested again: one writer, one worker, deeper (the replacement job lives under the
+        # same id as the killed one)
+        again = X.Cfg(bound=16 if tier == "quick" else 20, maxpoll=1, maxrender=3, finish_results=("full", "err"), wd_advances=(20.0, 3700.0), probe=False)
+        again.events19 = {"render", "pull", "finishr", "killj", "wd"}
+        again.writers19 = ("rl",)
+        rc = X.search_phases(self.id, [("wide", cfg, cap), ("kill-and-render-again", again, 120 if tier == "quick" else 1800)], tier, seed, self.families,
                       rule=("BFS over histories of one collection's fetch/render jobs on the REAL nserve.Application bound in-process to the "
                             "REAL queue server (controlled gevent hub); events: render(writer) via do_render, pull, setinfo, finish with "
                             "4 result shapes / error, kill, timeout tick, watchdog with clock past error-ttl and ttl, worker EOF; in every "
